@@ -40,7 +40,7 @@ cast
 end
 script
   tempo 30ms
-  scene x entails for a: ok
+  scene x entails for a: %(first)s
   scene f entails for a: %(last)s
   scene y entails for every r: ok
   scene z entails for b1: slow
@@ -245,9 +245,16 @@ def run(tier, seed):
             oarg = od if od != "ABS" else os.path.join(scratch, "e2e-abs-%d" % n, "o")
             # a fouled play: a failing action in the last act (even flag sets) or a disappointed auditor (odd ones)
             how = None if not fouled else ("action" if fl % 2 == 0 else "audit")
-            text = PLAY % {"last": "bad" if how == "action" else "ok", "pred": "< 0" if how == "audit" else ">= 0", "repeat": REPEAT if rpt else ""}
+            text = PLAY % {"first": "ok", "last": "bad" if how == "action" else "ok", "pred": "< 0" if how == "audit" else ">= 0", "repeat": REPEAT if rpt else ""}
             plays.append(e2e.Play(text, args=args, outdir_arg=oarg, timeout=60, keep=True))
             meta.append({"flags": args, "fouled": fouled, "outdir": od, "oarg": oarg, "repeat": rpt, "upload": None, "config": text, "how": how})
+        # a play with a repeat section that is fouled BEFORE the repeated act starts: result.js has no Repeat
+        # section then and no zoomed plot is written, so no plot script may name one
+        for n, args in enumerate(([], ["-k"], ["-q"])):
+            text = PLAY % {"first": "bad", "last": "ok", "pred": ">= 0", "repeat": REPEAT}
+            od = OUTDIRS[n % 2]
+            plays.append(e2e.Play(text, args=args, outdir_arg=od, timeout=60, keep=True))
+            meta.append({"flags": args, "fouled": True, "outdir": od, "oarg": od, "repeat": False, "upload": None, "config": text, "how": "early action"})
         # upload rows: a stand-in `scp` first on the PATH (documented: --upload-url implies --clear)
         bindir = os.path.join(scratch, "bin")
         os.makedirs(bindir)
@@ -260,7 +267,7 @@ def run(tier, seed):
             if fail:
                 env["VERIF_SCP_FAIL"] = "1"
             args = (["-k"] if k else []) + ["--upload-url", "scp://host/results"]
-            text = PLAY % {"last": "bad" if fouled else "ok", "pred": ">= 0", "repeat": ""}
+            text = PLAY % {"first": "ok", "last": "bad" if fouled else "ok", "pred": ">= 0", "repeat": ""}
             plays.append(e2e.Play(text, args=args, outdir_arg="out", timeout=60, keep=True, env=env))
             meta.append({"flags": args, "fouled": fouled, "outdir": "out", "oarg": "out", "repeat": False,
                          "upload": {"fails": fail, "dest": dest}, "config": text})
